@@ -706,7 +706,7 @@ func subCorpus() []subScenario {
 		{"subfs/dotdot-escapes", "d", cat([]Op{mkdir("d"), wfile("out", "secret")},
 			via(wfile("../x", "1"), p1("ReadFile", "../out"), p1("Stat", ".."), p1("ReadDir", ".."), mkdir("../m"), p1("Remove", "../out"), wfile("a/../../y", "2"), p1("Stat", "../nope"), wfile("a/../z", "3"), p1("ReadDir", ".")),
 			[]Op{p1("ReadDir", "/"), p1("ReadFile", "x"), p1("ReadDir", "d")})},
-		// C17-F22: Symlink and Link pass their names on unjoined
+		// regression replay of C17-F22 (repaired by 44061d3): Symlink and Link passed their names on unjoined
 		{"subfs/symlink-link-unjoined", "d", cat([]Op{mkdir("d"), wfile("d/f", "1")},
 			via(symlink("f", "l"), p1("Readlink", "l"), p1("ReadFile", "l"), p1("ReadFile", "f"), link("f", "g"), p1("ReadDir", "."), symlink("f", "d/l2"), p1("Readlink", "l2"), link("d/f", "d/g2"), p1("ReadFile", "g2")),
 			[]Op{p1("Readlink", "l"), p1("ReadDir", "/"), p1("ReadDir", "d")})},
@@ -783,7 +783,7 @@ func corpus() []scenario {
 		{"dirfs/mknod", true, []Op{Op{K: "Mknod", P: "null", Perm: 0o660, Dev: 259}, p1("Readnod", "null"), p1("Stat", "null"), p1("Lstat", "null"), p1("ReadFile", "null"), p1("ReadDir", "."),
 			mkdir("d"), Op{K: "Mknod", P: "/d/n", Perm: 0o600, Dev: 261}, p1("Readnod", "d/n"), p1("Readnod", "d"), p1("Readnod", "nope"), p1("Readnod", "d/nope/x"),
 			symlink("d/n", "ln"), p1("Readnod", "ln"), symlink("nowhere", "dl"), p1("Readnod", "dl"), Op{K: "Mknod", P: "nodir/x", Perm: 0o660, Dev: 259},
-			// C17-F20: Mknod on an existing name: the error is os.WriteFile's, an existing regular file is emptied
+			// regression replay of C17-F20 (repaired by bfd5027): Mknod on an existing name answered with os.WriteFile's error and emptied an existing regular file
 			wfile("f", "abc"), Op{K: "Mknod", P: "f", Perm: 0o660, Dev: 259}, p1("ReadFile", "f"), p1("Stat", "f"), Op{K: "Mknod", P: "d", Perm: 0o660, Dev: 259}, p1("ReadDir", "d"),
 			Op{K: "Mknod", P: "null", Perm: 0o660, Dev: 260}, p1("Readnod", "null"), Op{K: "Mknod", P: "ln", Perm: 0o660, Dev: 259}, p1("Remove", "null"), p1("Readnod", "null"), p1("ReadDir", ".")}},
 		{"dirfs/readnod-dangling-link", true, []Op{symlink("nowhere", "dl"), p1("Readnod", "dl")}}, // C17-F23
